@@ -1,6 +1,8 @@
 package main
 
 import (
+	"golang.org/x/tools/go/ssa"
+	"strconv"
 	"encoding/json"
 	"fmt"
 	"os"
@@ -62,6 +64,10 @@ func loadClaims(prop string, tier string) *claimSet {
 		if line == "" || strings.HasPrefix(line, "#") {
 			continue
 		}
+		if strings.HasPrefix(line, "auto-invariant ") {
+			monoAccepted[strings.TrimSpace(line[len("auto-invariant "):])] = true
+			continue
+		}
 		if strings.HasPrefix(line, "thorough ") {
 			if tier == "thorough" {
 				cs.names[strings.TrimSpace(line[9:])] = true
@@ -98,6 +104,38 @@ func hasProp(props []string, p string) bool {
 }
 
 var budgetOverride int
+
+func fnHasLoop(fn *ssa.Function) bool {
+	for _, b := range fn.Blocks {
+		for _, s := range b.Succs {
+			if s.Dominates(b) {
+				return true
+			}
+		}
+	}
+	return false
+}
+
+// claimsDirty: (incremental claims generation) does the function lack claims altogether?
+// Functions whose claimed obligations disappeared are caught later by the ordinary dirty logic;
+// for the monotone-counter phase a function with existing claims keeps its accepted counters.
+var forceDirty = map[string]bool{}
+var claimsFnCache map[string]bool
+
+func claimsDirty(prop, qual string) bool {
+	if claimsFnCache == nil {
+		claimsFnCache = map[string]bool{}
+		data, _ := os.ReadFile(filepath.Join(verifDir, "claims", prop+".txt"))
+		for _, line := range strings.Split(string(data), "\n") {
+			t := strings.TrimSpace(line)
+			for _, pre := range []string{"thorough ", "complete ", "auto-invariant "} {
+				t = strings.TrimPrefix(t, pre)
+			}
+			claimsFnCache[funcOfObl(t)] = true
+		}
+	}
+	return !claimsFnCache[qual]
+}
 var incremental bool // with --gen-claims: keep the claims of functions whose claimed obligations all still exist and pass
 
 // funcOfObl: the function part of an obligation name
@@ -170,6 +208,58 @@ func cmdCheck(args []string) {
 	}
 	var results []*FuncResult
 	var driftHere []string
+	if genClaims {
+		// phase A: which monotone-counter invariants can be established? (see vc.go: monoInv)
+		oldAccepted := monoAccepted
+		monoAccepted = map[string]bool{}
+		monoMode = 1
+		var phaseA []*FuncResult
+		redo := map[string]bool{}
+		for _, ct := range cs.List {
+			if !hasProp(ct.Properties, prop) || ct.IfaceMethod || ct.Fn == nil || ct.Trusted || !fnHasLoop(ct.Fn) {
+				continue
+			}
+			if incremental && !claimsDirty(prop, ct.Qual) && os.Getenv("MLRVC_REMONO") == "" {
+				for k := range oldAccepted {
+					if strings.HasPrefix(k, ct.Qual+"#") {
+						monoAccepted[k] = true
+					}
+				}
+				continue
+			}
+			redo[ct.Qual] = true
+			phaseA = append(phaseA, verifyContract(l, cs, ct))
+		}
+		solveAll(phaseA, 5, 16, func(o *Obligation) bool { return strings.Contains(o.Name, ".mono.") })
+		bad := map[string]bool{}
+		seen := map[string]bool{}
+		for _, r := range phaseA {
+			for _, o := range r.Obls {
+				if i := strings.Index(o.Name, ".keep"); i > 0 && strings.Contains(o.Name, ".mono.") {
+					key := o.Name[:i]
+					seen[key] = true
+					if o.Result != "proved" {
+						bad[key] = true
+					}
+				}
+			}
+		}
+		for k := range seen {
+			if !bad[k] {
+				monoAccepted[k] = true
+				if !oldAccepted[k] {
+					forceDirty[funcOfObl(k)] = true // new invariant: the function's obligations are re-solved
+				}
+			}
+		}
+		for k := range oldAccepted {
+			if redo[funcOfObl(k)] && !monoAccepted[k] {
+				forceDirty[funcOfObl(k)] = true
+			}
+		}
+		monoMode = 0
+		fmt.Fprintf(os.Stderr, "[mono] %d candidate counters, %d accepted (%d functions examined)\n", len(seen), len(seen)-len(bad), len(phaseA))
+	}
 	for _, ct := range cs.List {
 		if !hasProp(ct.Properties, prop) {
 			continue
@@ -270,7 +360,7 @@ func cmdCheck(args []string) {
 			for _, o := range r.Obls {
 				present[o.Name] = true
 			}
-			if !hasClaim[r.Name()] {
+			if !hasClaim[r.Name()] || forceDirty[r.Name()] {
 				dirtyFn[r.Name()] = true
 			}
 		}
@@ -332,6 +422,56 @@ func cmdCheck(args []string) {
 		return
 	}
 
+	// ---- renumbering tolerance ----
+	// Safety and call-site obligations are named by the text of the expression plus an occurrence
+	// number. An edit that adds or removes an occurrence shifts the numbers, so a claimed name can
+	// come to denote a site that never was provable. When a claimed occurrence fails, all
+	// occurrences of the same text in the function are solved; if at least as many of them are
+	// proved as were claimed, the failure is a renumbering (undecided), not a violation.
+	occBase := func(name string) string {
+		if i := strings.LastIndex(name, "#"); i > 0 && strings.Contains(name[:i], "#") {
+			if _, err := strconv.Atoi(name[i+1:]); err == nil {
+				return name[:i]
+			}
+		}
+		return ""
+	}
+	renumbered := map[string]bool{}
+	{
+		failedBases := map[string]bool{}
+		for _, r := range results {
+			for _, o := range r.Obls {
+				if claims.names[o.Name] && !o.ExpectSat && o.Result != "" && o.Result != "proved" && o.Result != "known-finding" {
+					if b := occBase(o.Name); b != "" {
+						failedBases[b] = true
+					}
+				}
+			}
+		}
+		if len(failedBases) > 0 {
+			solveAll(results, budget, 16, func(o *Obligation) bool { return o.Result == "" && failedBases[occBase(o.Name)] })
+			claimedCount := map[string]int{}
+			for n := range claims.names {
+				if b := occBase(n); failedBases[b] {
+					claimedCount[b]++
+				}
+			}
+			provedNow := map[string]int{}
+			for _, r := range results {
+				for _, o := range r.Obls {
+					if b := occBase(o.Name); failedBases[b] && o.Result == "proved" {
+						provedNow[b]++
+					}
+				}
+			}
+			for b := range failedBases {
+				if provedNow[b] >= claimedCount[b] {
+					renumbered[b] = true
+				}
+			}
+		}
+	}
+
 	// ---- verdicts ----
 	violations := 0
 	var samples []map[string]interface{}
@@ -350,9 +490,13 @@ func cmdCheck(args []string) {
 				continue
 			}
 			base := strings.TrimSuffix(o.Name, "@outside-known-region")
-			claimed := claims.names[base] || claims.complete[o.Func]
+			claimed := claims.names[base]
 			ok := o.Result == "proved" || o.Result == "sat-ok"
 			solverTime += o.TimeS
+			if claimed && !ok && renumbered[occBase(base)] {
+				undecided = append(undecided, fmt.Sprintf("%s: %s (occurrences of this expression were renumbered by an edit; as many are proved as were claimed)", o.Name, o.Result))
+				continue
+			}
 			if claimed {
 				nObl++
 				if ok {
@@ -495,6 +639,16 @@ func writeClaims(prop string, results []*FuncResult) {
 		}
 		lines = append(lines, fl...)
 	}
+	var autos []string
+	for _, r := range results {
+		for k := range monoAccepted {
+			if strings.HasPrefix(k, r.Name()+"#") {
+				autos = append(autos, "auto-invariant "+k)
+			}
+		}
+	}
+	sort.Strings(autos)
+	lines = append(lines, autos...)
 	os.MkdirAll(filepath.Join(verifDir, "claims"), 0o755)
 	os.WriteFile(filepath.Join(verifDir, "claims", prop+".txt"), []byte(strings.Join(lines, "\n")+"\n"), 0o644)
 	fmt.Printf("claims/%s.txt: %d of %d obligations claimed\n", prop, ok, total)
@@ -509,7 +663,7 @@ func writeClaimsIncremental(prop string, results []*FuncResult, dirty map[string
 		if t == "" || strings.HasPrefix(t, "#") {
 			continue
 		}
-		name := strings.TrimPrefix(strings.TrimPrefix(t, "thorough "), "complete ")
+		name := strings.TrimPrefix(strings.TrimPrefix(strings.TrimPrefix(t, "thorough "), "complete "), "auto-invariant ")
 		oldByFn[funcOfObl(name)] = append(oldByFn[funcOfObl(name)], t)
 	}
 	var dirtyResults []*FuncResult
